@@ -120,6 +120,29 @@ Definition c01_example : list op :=
     (* a notify whose function element names another function: dispatch is on the data element *)
     Inbound 2 {| d_src := r1 2; d_dst := cl; d_ctr := 23; d_ref := None; d_ack := true;
                  d_body := BCmd CNotify (PData 14 9); d_fct := 3; d_sel := 0 |} ].
+(* nested local entities: the child [1,1] is created before its parent [1]; both have a feature 1.  A read
+   of [1]/1 is answered by the parent's feature, after RemoveEntity [1] by one error result with the local
+   device address (the address is a proper prefix of the child's, it resolves to nothing), [1,1]/1 keeps
+   answering *)
+Definition c01_nested : list op :=
+  [ AddLocalEntity [1%N; 1%N]; AddLocalFeature [1%N; 1%N] T_LOADCONTROL RServer; AddFunction [1%N; 1%N] 1 14 true false;
+    SetData [1%N; 1%N] 1 14 500;
+    AddLocalEntity [1%N]; AddLocalFeature [1%N] T_LOADCONTROL RServer; AddFunction [1%N] 1 14 true false; SetData [1%N] 1 14 100;
+    Connect 1; Inbound 1 {| d_src := a None [0%N] 0; d_dst := nm; d_ctr := 1; d_ref := Some 1%N; d_ack := false;
+                           d_body := BCmd CReply (PDiscovery (tree 1)); d_fct := 0; d_sel := 0 |};
+    Inbound 1 (dg (r1 1) (a None [1%N] 1) 2 false (BCmd CRead (PData 14 0)));
+    RemoveLocalEntity [1%N];
+    Inbound 1 (dg (r1 1) (a None [1%N] 1) 3 false (BCmd CRead (PData 14 0)));
+    Inbound 1 (dg (r1 1) (a None [1%N; 1%N] 1) 4 false (BCmd CRead (PData 14 0))) ].
+Example C01_nested_entities :
+  map snd (skipn 10 (snd (run init c01_nested))) =
+    [ [OReply 1 2 (a (Some 0%N) [1%N] 1) (r1 1) 14 100];
+      [];
+      [OResult 1 3 E_DESTUNKNOWN (a (Some 0%N) [1%N] 1) (r1 1)];
+      [OReply 1 4 (a (Some 0%N) [1%N; 1%N] 1) (r1 1) 14 500] ] /\
+  accepted_trace (judge minit (snd (run init c01_nested))) = true.
+Proof. vm_compute. split; reflexivity. Qed.
+
 Example C01_nonvacuous :
   map snd (skipn 9 (snd (run init c01_example))) =
     [ [OReply 1 10 lc (r1 1) 14 55];
